@@ -87,12 +87,12 @@ type msg struct {
 
 // Task is one simulated caller goroutine.
 type Task struct {
-	ID      int
-	back    chan msg
-	wake    chan int
-	state   int // 0 parked at a yield, 1 blocked outside the scheduler, 2 done; driver-owned
-	local   *Local
-	aborted bool
+	ID       int
+	back     chan msg
+	wake     chan int
+	state    int // 0 parked at a yield, 1 blocked outside the scheduler, 2 done; driver-owned
+	local    *Local
+	aborted  bool
 	lastSite int // driver-owned
 }
 
